@@ -119,6 +119,7 @@ fixed("C03", "D31", "^fix: forced checkout/switch discards", "`git switch --disc
 fixed("C02", "D16a", "^fix: rebased commits no longer get notes", "after a plain two-commit rebase whose first commit did not touch f.txt, the note of the first rewritten commit listed the second commit's AI line of f.txt at its pre-rebase line number (a line the commit does not contain / a person's line)", "c02.rebase_first_commit_must_not_list_later_files")
 fixed("C02", "D11", "^fix: reset --soft/--mixed keeps pending", "pending AI lines in f.txt were dropped by `git reset --soft|--mixed HEAD~1` when the un-done commit only touched g.txt (reconstruct_working_log_after_reset rebuilt only files changed in the un-done range and deleted the old working log)", "c02.reset_of_unrelated_commit_keeps_pending")
 fixed("C02", "D25", "^fix: bare 'git stash' takes", "bare `git stash` (implicit push) skipped the pre-stash human checkpoint that `git stash push` runs, so a person's unreported insertion above pending AI lines left stale line numbers in the stash note and an AI line came back human after pop", "c02.bare_stash_after_unreported_human_edit")
+fixed("C02", "D54", "^fix: CI rebase-merge detection", "a pull request of two commits (the first adds two AI lines at the end of f.txt, the second deletes them again) squash-merged on the server onto a base branch with earlier commits: `git-ai ci local merge` (likewise the GitHub CI run) took the squash for a rebase merge because it walked two commits back from the squash commit into the base branch; the squash commit got the note of the last original commit only, listing lines 8-9 of a 5-line file, and the note of an older base-branch commit was overwritten", "c02.ci_squash_merge_of_two_commits_on_moved_base")
 
 open_("C18", "D49", "C18/alias-tokens-differ@trailing-backslash", [],
       "alias value ending in a lone backslash, e.g. alias.zz='log -1\\': git rejects the alias (`fatal: bad alias.zz string: cmdline ends with \\`); parse_alias_tokens keeps the backslash as a literal character and the proxy runs `log -1\\` (the pinned unit test parse_alias_tokens_trailing_backslash asserts the current behaviour, so the repair is not an unedited-suite-compatible fix)",
